@@ -2,10 +2,12 @@
 open Drv_base
 open Drv_gen
 
-let () = register_backend "go" (fun cfg pd ->
-  let c = { Model.go_package = cfg_str cfg "package"; Model.go_type_mappings = cfg_map cfg "type_mappings";
-            Model.go_uppercase_acronyms = cfg_strs cfg "uppercase_acronyms";
-            Model.go_no_version_header = cfg_bool cfg "no_version_header" true;
-            Model.go_no_pointer_slice = cfg_bool cfg "no_pointer_slice" false;
-            Model.go_version = cfg_str cfg "version" } in
-  Model.go_generate uc c pd)
+let go_config cfg =
+  { Model.go_package = cfg_str cfg "package"; Model.go_type_mappings = cfg_map cfg "type_mappings";
+    Model.go_uppercase_acronyms = cfg_strs cfg "uppercase_acronyms";
+    Model.go_no_version_header = cfg_bool cfg "no_version_header" true;
+    Model.go_no_pointer_slice = cfg_bool cfg "no_pointer_slice" false;
+    Model.go_version = cfg_str cfg "version" }
+
+let () = register_backend "go" (fun cfg pd -> Model.go_generate uc (go_config cfg) pd)
+let () = register_decls "go" (fun cfg pd -> Model.go_file_decls uc (go_config cfg) pd)
